@@ -1,5 +1,7 @@
 pub mod c01;
 pub mod c03;
+pub mod c05;
+pub mod c16;
 pub mod c20;
 
 use serde_json::{json, Value};
